@@ -13,7 +13,8 @@ vars == <<script, att, s2, ended1, pdet>>
 Init == script = <<>> /\ att = {} /\ s2 = FALSE /\ ended1 = FALSE /\ pdet = {}
 
 Ev == {"AttS1", "AttR2", "AttDup", "Refuse4", "DetS1", "CloseS1", "DropS1", "CloseR2", "PDetS1err", "PDetS1nc", "PCloseR2", "Send1", "SendDrop1", "SendDet1",
-       "Beg2", "AttS3", "Send3", "End1", "End1err", "PEnd1", "PEnd1err", "End2", "SendEnd1", "PDetS1idle", "SendQEndErr1", "DropEndErr1"}
+       "Beg2", "AttS3", "Send3", "End1", "End1err", "PEnd1", "PEnd1err", "End2", "SendEnd1", "PDetS1idle", "SendQEndErr1", "DropEndErr1",
+       "PDetS1close", "PDetS1drop"}
 ClientOnly == {"AttDup", "Refuse4"}
 Enabled(e) ==
   (Side = "client" \/ e \notin ClientOnly) /\
@@ -21,7 +22,7 @@ Enabled(e) ==
     [] e = "AttR2" -> ~ended1 /\ "L2" \notin att
     [] e = "AttDup" -> ~ended1 /\ "L1" \in att /\ "L1" \notin pdet
     [] e = "Refuse4" -> ~ended1
-    [] e \in {"DetS1", "CloseS1", "DropS1", "PDetS1err", "PDetS1nc", "PDetS1idle", "Send1", "SendDrop1", "SendDet1"} -> ~ended1 /\ "L1" \in att /\ "L1" \notin pdet
+    [] e \in {"DetS1", "CloseS1", "DropS1", "PDetS1err", "PDetS1nc", "PDetS1idle", "PDetS1close", "PDetS1drop", "Send1", "SendDrop1", "SendDet1"} -> ~ended1 /\ "L1" \in att /\ "L1" \notin pdet
     [] e \in {"CloseR2", "PCloseR2"} -> ~ended1 /\ "L2" \in att /\ "L2" \notin pdet
     [] e = "Beg2" -> ~s2
     [] e = "AttS3" -> s2 /\ "L3" \notin att
@@ -32,7 +33,7 @@ Enabled(e) ==
 Step(e) ==
   /\ Len(script) < Depth /\ Enabled(e) /\ script' = Append(script, e)
   /\ att' = CASE e = "AttS1" -> att \cup {"L1"} [] e = "AttR2" -> att \cup {"L2"} [] e = "AttS3" -> att \cup {"L3"}
-              [] e \in {"DetS1", "CloseS1", "DropS1", "SendDrop1", "SendDet1"} -> att \ {"L1"} [] e = "CloseR2" -> att \ {"L2"}
+              [] e \in {"DetS1", "CloseS1", "DropS1", "SendDrop1", "SendDet1", "PDetS1close", "PDetS1drop"} -> att \ {"L1"} [] e = "CloseR2" -> att \ {"L2"}
               [] e \in {"End1", "End1err", "PEnd1", "PEnd1err", "SendEnd1", "SendQEndErr1", "DropEndErr1"} -> att \ {"L1", "L2"} [] e = "End2" -> att \ {"L3"} [] OTHER -> att
   /\ s2' = IF e = "Beg2" THEN TRUE ELSE IF e = "End2" THEN FALSE ELSE s2
   /\ ended1' = (ended1 \/ e \in {"End1", "End1err", "PEnd1", "PEnd1err", "SendEnd1", "SendQEndErr1", "DropEndErr1"})
@@ -86,6 +87,9 @@ Conc(e, m) ==
     [] e = "SendEnd1" -> << Send("L1", m, FALSE), [e |-> "AEnd", s |-> "s1"], [e |-> "PFrame", perf |-> "end", ch |-> 3, f |-> [err |-> ""]] >>
     \* the peer closes the link and the application does not touch it: its handle and name stay taken until the endpoint has answered
     [] e = "PDetS1idle" -> << PDet(3, H(5), TRUE, "") >>
+    \* the peer closes first and the application answers by closing / dropping its handle: one detach per attach
+    [] e = "PDetS1close" -> << [e |-> "AOnDetach", l |-> "L1"], PDet(3, H(5), TRUE, ""), [e |-> "ADetach", l |-> "L1", closed |-> TRUE] >>
+    [] e = "PDetS1drop" -> << PDet(3, H(5), TRUE, ""), [e |-> "ADrop", h |-> "l:L1"] >>
     \* work queued and the session ended with an error in the same scheduler turn
     [] e = "SendQEndErr1" -> << [e |-> "ASend", l |-> "L1", m |-> m, len |-> 20, settled |-> TRUE, batchable |-> TRUE, nosettle |-> TRUE],
                                 [e |-> "AEnd", s |-> "s1", err |-> "internal"], [e |-> "PFrame", perf |-> "end", ch |-> 3, f |-> [err |-> ""]] >>
